@@ -390,7 +390,8 @@ func (d *Doc) ObjectView(s M) (ObjectView, error) {
 					return err
 				}
 			}
-			return nil
+			// the composition's own keywords (properties / required /
+			// additionalProperties next to allOf) apply as well
 		}
 		for _, k := range SortedKeys(asM(s["properties"])) {
 			if _, dup := ov.Props[k]; !dup {
